@@ -101,6 +101,7 @@ def run(ctx, impl_only=False):
     # byte strings that differ only in what a lenient decoder drops or replaces: a leading byte order mark, undecodable bytes, a NUL, line ends
     BOM = b'\xef\xbb\xbf'
     for (x, y) in [(BOM + b'abc', b'abc'), (b'abc', BOM + b'abc'), (BOM + b'l1\nl2', b'l1\nl2'), (BOM + b'l1\nl2', BOM + b'l1\nl3'), (BOM, b''), (b'a\xffb', b'a\xfeb'), (b'a\xff', b'a'),
+                   ('x\n\n', 'y\n\n'), ('one\ntwo   ', 'one\ntwo   \nthree'), ('a\nq\t', 'b\nq\t'), ('k\n\nm\n\n\n', 'k\n\nn\n\n\n'), ('p\n ', 'q\n '), ('l1\nl2\n\nl4', 'l1\nX\n\nl4'),
                    (b'abc\x00', b'abc'), (b'a\r\nb', b'a\nb'), (b'l1\nl2\n', b'l1\nl2'), ('l1\r\nl2', 'l1\nl2'), ('a\x0cb\nc', 'a\nb\nc'), ('x\u2028y\nz', 'x\ny\nz'), ('a\nb\n', 'a\nb')]:
         for w in (lambda v: v, lambda v: {'k': v}, lambda v: [v, 1], lambda v: ('z', [v])):
             pairs.append((w(x), w(y)))
